@@ -72,6 +72,7 @@ func (e *Emitter) Close(statsPath string) {
 }
 
 var withGenesis bool
+var queriesOn = true
 
 func jsonValid(s string) bool { return json.Valid([]byte(s)) }
 
@@ -92,6 +93,7 @@ func main() {
 	outPath := fs.String("out", "-", "trace output")
 	statsPath := fs.String("stats", "", "stats output")
 	fs.BoolVar(&withSigned, "signed", false, "msgs profile: also send real signed transactions through DeliverTx")
+	fs.BoolVar(&queriesOn, "queries", true, "interleave query records (the gRPC query servers answering on the current state)")
 	fs.BoolVar(&withGenesis, "genesis", false, "round-trip the custom modules' genesis at the end of every history")
 	fs.Parse(os.Args[2:])
 	out := NewEmitter(*outPath)
